@@ -75,7 +75,14 @@ def failureClass (o : Outcome) : Bool := o == .failure || o == .error
 goes on to do (return, skip, expected failure, unexpected success, failure, error, interrupt; in the body,
 `tearDown` or a cleanup): never success / skip / expected failure / unexpected success.  (What a later
 stage does to the `MismatchError` that `assertThat` raised is the subject of C03; here only: if nothing
-else happens the run is a failure.) -/
+else happens the run is a failure.)
+
+Scope of "makes the test fail once it has finished": the expectation is recorded in the test method (or
+later) of a run whose `setUp` returned normally, on an instance that carries no `force_failure` from an
+earlier run.  Outside that scope the code behaves differently and the clause makes no claim: an expectThat
+mismatch in `setUp` followed by a skip raised in `setUp` is reported as addSkip (the setUp-failed branch of
+`RunTest._run_core` does not look at `force_failure`), and `force_failure` survives `TestCase._reset()`, so a
+second run of the same instance fails again (M-Run models that flag as `ff0`). -/
 def cFailsAfterwards : Input → Trace → Bool
   | .assert a, .assert o =>
     (if a.mismatch.isSome then
